@@ -51,6 +51,7 @@ type rzState struct {
 	expectRefused bool
 	jobsBefore    int
 	unsettled     bool
+	pushedN       int // live nodes at the last state exchange
 	gate          *gateState
 	tableA        map[string][]string // owner table of the first cluster (wide mode)
 	partsSeen     map[int]bool
@@ -108,10 +109,17 @@ func rzPreOp(d *db) func(op simrt.Op) {
 		if !rzRacing[op.K] && !rzReadOnly[op.K] {
 			st.frags = nil // a write: the fragment snapshot no longer describes the data
 		}
-		if rzRacing[op.K] || !st.unsettled {
+		if rzRacing[op.K] {
 			return
 		}
-		d.settle(90)
+		if st.unsettled {
+			d.settle(90)
+		}
+		// memberlist exchanges state with a node when it joins; a node that was admitted after
+		// the last exchange (by a repeated join event, say) gets the schema here
+		if n := len(d.openNodes()); n != st.pushedN && !d.c.Failed() {
+			d.pushPull()
+		}
 	}
 }
 
@@ -739,6 +747,7 @@ func (d *db) pushPull() {
 		}
 	}
 	simrt.Sleep(200 * time.Millisecond) // the status handler applies it in a goroutine
+	d.rz().pushedN = len(nodes)
 }
 
 // settle waits for the pending membership change to finish and checks its outcome.
@@ -828,10 +837,6 @@ func rzBase(r *simrt.Rand, nodes, replicas int) (*dbGen, []simrt.Op) {
 	g := newDBGen(r, nodes)
 	g.noStore = true
 	g.noShift = true
-	// A node that receives fragments of an int field keeps the bit depth of the schema it
-	// was sent (the coordinator's), not that of the data; range predicates on such a node are
-	// outside these properties, so int data is compared fragment by fragment instead.
-	g.noInt = true
 	types := []string{"set"}
 	for _, t := range []string{"set", "time", "int", "mutex"} {
 		if r.Bool(0.5) {
